@@ -249,6 +249,10 @@ class TDS(BaseRoutine):
             self.streaming_init()
             self.streaming_step()
 
+        # apply the events scheduled exactly at the starting time; no step ends at
+        # this time, so they would otherwise be skipped by `calc_h`
+        self.do_switch()
+
         # if `dae.n == 1`, `calc_h_first` depends on new `dae.gy`
         self.calc_h()
 
